@@ -98,6 +98,38 @@ func c07BuildPool() {
 	}
 }
 
+// c07BuildBig adds rules with very many modifiers (every content type and
+// more), generic and domain-specific, so that large modifier counts meet the
+// class and specific-over-generic criteria.
+func c07BuildBig() {
+	all := append([]string(nil), gen.TypeList...)
+	for _, exc := range []bool{false, true} {
+		for _, imp := range []bool{false, true} {
+			for _, dom := range [][]gen.Val{nil, {{Name: "d.com"}}, {{Name: "d.com", Neg: true}}} {
+				for k, ty := range []struct{ p, r []string }{{all, nil}, {all[:10], nil}, {all[:6], all[6:]}, {nil, all}} {
+					for mask := 0; mask < 8; mask++ {
+						s := &gen.Spec{Pattern: "||x.com^", Exception: exc, Important: imp, Domains: dom, TypesP: ty.p, TypesR: ty.r}
+						if mask&1 != 0 {
+							s.ThirdParty = 1
+						}
+						if mask&2 != 0 {
+							s.MatchCase = true
+							s.CTags = []gen.Val{{Name: "device_pc"}}
+						}
+						if mask&4 != 0 {
+							s.Clients = []gen.Client{gen.ClientNets[0]}
+							s.DenyAllow = []string{"y.com"}
+							s.DNSTypes = []gen.Val{{Name: "A"}}
+						}
+						_ = k
+						c07Pool = append(c07Pool, c07Make(s))
+					}
+				}
+			}
+		}
+	}
+}
+
 type c07Witness struct {
 	A string `json:"a"`
 	B string `json:"b,omitempty"`
@@ -160,13 +192,16 @@ const c07Rows = 16
 func c07PairCases() int { return (len(c07Pool) + c07Rows - 1) / c07Rows }
 
 func init() {
-	c07PoolOnce.Do(c07BuildPool)
+	c07PoolOnce.Do(func() {
+		c07BuildPool()
+		c07BuildBig()
+	})
 	tripleCases := map[core.Tier]int{core.Quick: 64, core.Thorough: 2000}
 	selCases := map[core.Tier]int{core.Quick: 400, core.Thorough: 20000}
 	core.Register(&core.Prop{
 		ID:    "C07",
 		Level: "exploration",
-		Rule: fmt.Sprintf("pool = every combination of the features the comparison reads (exception x important x 4 $domain shapes x 5 content-type shapes x third-party x match-case x $dnstype x $ctag x $client x $denyallow = %d rules); "+
+		Rule: fmt.Sprintf("pool = every combination of the features the comparison reads (exception x important x 4 $domain shapes x 5 content-type shapes x third-party x match-case x $dnstype x $ctag x $client x $denyallow, plus rules carrying 10..16 modifiers (all content types and more), = %d rules); "+
 			"exhaustive over the pool: irreflexivity, asymmetry and agreement with class order / specific-over-generic for all ordered pairs, add-one-modifier => strictly higher for every rule; "+
 			"transitivity of > and of incomparability on all triples of PRNG-drawn 90-rule subsets; selection maximality for candidate lists of 2..5 rules in all permutations through NewMatchingResult and GetDNSBasicRule; "+
 			"non-trivial = pool rule compared against the whole pool (its ordered pairs are counted in events.ordered_pairs), triple subset, or candidate list; distinct by the rule texts involved", len(c07Pool)),
